@@ -125,6 +125,8 @@ def gen_ranges(rng, strings, ty="?", count_name=None):
         if rng.chance(1, 2):
             # sequence syntax [value, count...]; numbers may be written as numbers
             cs = []
+            if i < nb - 1 and rng.chance(1, 25):
+                specs = specs + [rng.pick(["_", ".."])]      # a fallback among the alternatives of a branch that is not the last: InvalidFallback
             for s in specs:
                 if s.lstrip("-").isdigit() and rng.chance(1, 2):
                     cs.append(num(int(s)))
@@ -263,7 +265,11 @@ def gen_locale_tree(rng, plans, locale, is_default, opts, depth=0, meta=None, ns
                 pairs.append((key, None))    # explicit null
                 continue
         if plan.kind == "group":
-            if not is_default and rng.chance(1, 25) and opts.get("mismatch", True):
+            if not is_default and rng.chance(1, 20):
+                # an empty object where the default locale has a group: every key of the group is missing here
+                rec["presence"] = "empty-group"
+                pairs.append((key, O([])))
+            elif not is_default and rng.chance(1, 25) and opts.get("mismatch", True):
                 rec["kind"] = "mismatch"
                 pairs.append((key, "a value where subkeys are expected"))
             else:
@@ -278,6 +284,10 @@ def gen_locale_tree(rng, plans, locale, is_default, opts, depth=0, meta=None, ns
                 src = gen.gen_src(rng, maxn=3, comps=False, fmts=False, vars_=plan.vars + ["count"])
                 rec["forms"][f] = src
                 text = gen.print_src(src)
+                if not is_default and f != "other" and rng.chance(1, 12) and opts.get("null_forms", True):
+                    # a form explicitly nulled: not a form at all (the other forms still make the plural, or not)
+                    pairs.append((f"{key}{infix}_{f}", None))
+                    continue
                 if ft and rng.chance(1, 6):
                     # a reference inside a plural form (any form, `other` included; cardinal and ordinal)
                     text = rng.pick([text + " $t(" + rng.pick(ft) + ")", "$t(" + rng.pick(ft) + ") " + text])
